@@ -658,7 +658,13 @@ func (x *Exec) execInstr(fr *Frame, st *State, ins ssa.Instruction) {
 			}
 		}
 	case *ssa.Select:
-		fr.vals[i] = x.freshVal(i.Type(), "select")
+		sv := x.freshVal(i.Type(), "select")
+		fr.vals[i] = sv
+		if i.Blocking && len(sv.L) > 0 && sv.L[0].Sort.Kind == SBV {
+			// a blocking select returns the index of one of its cases
+			w := sv.L[0].Sort.W
+			x.assume(st, x.tb.And(x.tb.SLe(x.tb.BVInt(0, w), sv.L[0]), x.tb.SLt(sv.L[0], x.tb.BVInt(int64(len(i.States)), w))))
+		}
 	case *ssa.Send:
 		// no effect on modelled state
 	case *ssa.Go:
